@@ -27,6 +27,9 @@ def _safe(name):
     return re.sub(r'[^A-Za-z0-9_.-]+', '_', name)[:150]
 
 
+REPRODUCED = 'REPLAY: the violation is reproduced on the real code'
+
+
 def write_replay(prop, rf, reg):
     d = os.path.join(VERIF, 'replays', prop)
     os.makedirs(d, exist_ok=True)
@@ -54,30 +57,43 @@ def write_replay(prop, rf, reg):
         '# obligation : %s' % rf['obligation'],
         '# function   : %s' % rf.get('function'),
         '# run        : PYTHONPATH=%s %s %s' % (REPO_SRC, PY, path),
-        '# exit status: 1 = violation reproduced on the real code, 0 = not reproduced, 2 = no concrete input',
+        '# exit status: 1 (and the line %r) = violation reproduced on the real code, 0 = not reproduced, 2 = no concrete input, 3 = the script failed' % REPRODUCED,
         '# solver output / counter-model:',
     ]
     for line in json.dumps(detail, indent=1, default=str).splitlines():
         header.append('#   ' + line)
     pre = ['import sys, os', 'sys.path.insert(0, %r)' % REPO_SRC, 'sys.path.insert(0, %r)' % VERIF,
-           'OBLIGATION = %r' % rf['obligation'], 'MODEL = %r' % (model or {}), '']
+           'OBLIGATION = %r' % rf['obligation'],
+           "_lim = sys.get_int_max_str_digits() if hasattr(sys, 'get_int_max_str_digits') else None",
+           'if _lim is not None:', '    sys.set_int_max_str_digits(0)      # counter-models may hold huge integers',
+           'MODEL = eval(%r)' % (repr(model or {}),),
+           'if _lim is not None:', '    sys.set_int_max_str_digits(_lim)', '']
     if src is None:
         src = 'print("no concrete failing input available for", OBLIGATION)\nsys.exit(2)\n'
     wrapped = 'try:\n' + ''.join('    ' + ln + '\n' for ln in src.splitlines()) + \
-              'except SystemExit:\n    raise\nexcept BaseException as _e:\n' \
+              ('except SystemExit as _e:\n    if _e.code == 1:\n        print(%r)\n    raise\n'
+               'except BaseException as _e:\n' % REPRODUCED) + \
               '    import traceback; traceback.print_exc()\n' \
               '    print("replay script failed (not a reproduction)"); sys.exit(3)\n'
     with open(path, 'w') as f:
         f.write('\n'.join(header) + '\n' + '\n'.join(pre) + '\n' + wrapped)
     reproduced = False
     out = ''
+    import shutil
+    import tempfile
+    # the replay runs real code on stub objects: run it in a scratch directory, so that a stub path that reaches a
+    # real file operation (open / mkdir with the stub's name) cannot litter the verification repository
+    scratch = tempfile.mkdtemp(prefix='pyvc-replay-')
     try:
-        p = subprocess.run([PY, path], capture_output=True, text=True, timeout=120,
+        p = subprocess.run([PY, os.path.abspath(path)], capture_output=True, text=True, timeout=120, cwd=scratch,
                            env=dict(os.environ, PYTHONPATH=REPO_SRC))
-        reproduced = (p.returncode == 1)
+        # (exit status 1 alone is also what CPython gives for a script it cannot compile or that dies)
+        reproduced = (p.returncode == 1 and REPRODUCED in p.stdout)
         out = (p.stdout + p.stderr)[-2000:]
     except Exception as e:
         out = repr(e)
+    finally:
+        shutil.rmtree(scratch, ignore_errors=True)
     with open(path, 'a') as f:
         f.write('\n# --- output of the replay when it was written (reproduced=%s):\n' % reproduced)
         for line in out.splitlines():
